@@ -100,6 +100,8 @@ package logql
 //@   ensures[no-bare-binop] ret1 == nil ==> topPrec(ret0) == 100
 
 //@ func (*parser).parseBinOp
+//@   capture e2 = call(errors.Errorf, 1)
+//@   ensures[right-scalar-judged-when-the-operand-is-complete] e2_called ==> len(e2_a1) == 2 && typeis[BinOp](e2_a1[1]) && nextPrec(p) < as[BinOp](e2_a1[1]).Precedence()
 //@   requires p.pos >= 0 && minPrecedence >= 0
 //@   ensures[cursor-never-moves-back] p.pos >= old(p.pos)
 //@   ensures[consumes-the-pending-operator] ret1 == nil && old(nextPrec(p)) >= minPrecedence ==> p.pos > old(p.pos)
@@ -119,7 +121,6 @@ package logql
 //@   loop 1 invariant p.pos >= 0 && p.pos >= old(p.pos) && p.pos > outer(p.pos)
 //@   loop 1 invariant topPrec(right) >= op.Precedence()
 //@   loop 1 invariant nextPrec(p) < topPrec(right)
-//@   loop 1 invariant op.IsLogic() ==> !typeis[*LiteralExpr](right)
 //@   assert@alloc(BinOpExpr,0)[L]        topPrec(left) > op.Precedence() || (topPrec(left) == op.Precedence() && op != OpPow)
 //@   assert@alloc(BinOpExpr,0)[R-higher] topPrec(right) != op.Precedence() ==> topPrec(right) > op.Precedence()
 //@   assert@alloc(BinOpExpr,0)[R-equal]  topPrec(right) == op.Precedence() ==> op == OpPow
@@ -185,7 +186,7 @@ package logql
 // ---- helpers used by the metric engine
 
 //@ func UnparenExpr
-//@   modifies nothing
+//@   pure
 //@   ensures[not-paren] !typeis[*ParenExpr](ret0)
 //@   ensures[identity-unless-paren] !typeis[*ParenExpr](e) ==> ret0 == e
 
@@ -450,6 +451,8 @@ package logql
 //@   ensures[static-rules] ret1 == nil ==> vectorAggValid(ret0.Op, ret0.Parameter != nil, *ret0.Parameter, ret0.Grouping != nil)
 //@   ensures[parameter] ret1 == nil ==> (ret0.Parameter != nil) == num_called && (num_called ==> *ret0.Parameter == num_r0)
 //@   ensures[operand] ret1 == nil ==> sub_called && ret0.Expr == sub_r0
+//@   ensures[a-leading-number-is-the-parameter-only-before-a-comma] num_called ==> before(num_called, p.pos+1 < len(p.tokens) && p.tokens[p.pos].Type == lexer.Number && p.tokens[p.pos+1].Type == lexer.Comma)
+//@   ensures[otherwise-the-number-starts-the-operand] sub_called && !num_called ==> before(sub_called, !(p.pos+1 < len(p.tokens) && p.tokens[p.pos].Type == lexer.Number && p.tokens[p.pos+1].Type == lexer.Comma))
 
 //@ func (*parser).parseLiteralExpr
 //@   requires p.pos >= 0
@@ -571,11 +574,15 @@ package logql
 //@ scope label.go
 
 // Label regexes match the whole value: the pattern is wrapped into ^(?:...)$ before compiling.
+// The user's pattern has to be a regular expression on its own (wrapping text that is not one can
+// yield a valid but unanchored expression: `a)|(?:b`); the matcher then uses the anchored form.
 //@ func compileLabelRegex
-//@   capture rc = call(regexp.Compile, 0)
+//@   capture own = call(regexp.Compile, 0)
+//@   capture rc = call(regexp.Compile, 1)
 //@   modifies nothing
 //@   ensures ret1 == nil ==> ret0 != nil
-//@   ensures[anchored-at-both-ends] rc_called && rc_a0 == "^(?:" + re + ")$" && ret0 == rc_r0 && same(ret1, rc_r1)
+//@   ensures[pattern-is-a-regular-expression-on-its-own] own_called && own_a0 == re && (own_r1 != nil ==> ret1 != nil && !rc_called)
+//@   ensures[anchored-at-both-ends] own_r1 == nil ==> rc_called && rc_a0 == "^(?:" + re + ")$" && ret0 == rc_r0 && same(ret1, rc_r1)
 
 //@ scope parser_pipeline.go
 
